@@ -12,23 +12,27 @@ from .core import Unsupported, PanicExc, Forks, NeedFork, wrap_int
 REGISTRY = []  # (pattern, fn, aux)
 
 
-def model(*patterns, aux=""):
+def model(*patterns, aux="", opt=None):
+    """opt: name of an option; the model (and its stop-list entry) is only active when that option is requested"""
     def deco(fn):
         for p in patterns:
-            REGISTRY.append((p, fn, aux))
+            REGISTRY.append((p, fn, aux, opt))
         return fn
     return deco
 
 
-def stoplist_text():
+def stoplist_text(opts=()):
     lines = []
-    for p, fn, aux in REGISTRY:
-        lines.append(p + (" || " + aux if aux else ""))
+    for p, fn, aux, opt in REGISTRY:
+        if opt is None or opt in opts:
+            lines.append(p + (" || " + aux if aux else ""))
     return "\n".join(lines) + "\n"
 
 
-def all_models():
-    return [(p, fn) for p, fn, aux in REGISTRY]
+def all_models(opts=()):
+    # optional models first so that they win over generic patterns
+    return [(p, fn) for p, fn, aux, opt in REGISTRY if opt is not None and opt in opts] + \
+           [(p, fn) for p, fn, aux, opt in REGISTRY if opt is None]
 
 
 # ---------------------------------------------------------------------------- helpers
@@ -1100,3 +1104,32 @@ def m_ref_vec_into_iter(I, st, inst, args):
         n = p.meta if isinstance(p.meta, int) else len(t.f)
         return make_slice_iter(I, inst.sig[-1], Ptr(p.cell, p.path), n)
     raise Unsupported("iter over %r" % (t,))
+
+
+@model("<std::boxed::Box<*> as std::ops::Drop>::drop", "<std::rc::Rc<*> as std::ops::Drop>::drop", "<std::sync::Arc<*> as std::ops::Drop>::drop")
+def m_box_drop(I, st, inst, args):
+    return UNIT
+
+
+@model("<std::vec::Vec<*> as std::ops::Index<std::ops::RangeFull>>::index", "<std::vec::Vec<*> as std::ops::IndexMut<std::ops::RangeFull>>::index_mut")
+def m_vec_index_full(I, st, inst, args):
+    v = get_vec(I, st, args[0])
+    return Ptr(args[0].cell, args[0].path + ("e",), len(v.elems))
+
+
+@model("<std::num::ParseIntError as std::fmt::Display>::fmt")
+def m_parse_int_error_display(I, st, inst, args):
+    e = I.read(st, args[0], expand_scalar=False)
+    if isinstance(e, Lazy):
+        e = I.lazy.expand(I, st, e, args[0])
+    k = e.f[0] if isinstance(e, Agg) else None
+    if isinstance(k, Lazy):
+        for s2, kv in force_variant(I, st, k):
+            k = kv
+            break
+    msgs = ["cannot parse integer from empty string", "invalid digit found in string", "number too large to fit in target type",
+            "number too small to fit in target type", "number would be zero for non-zero type"]
+    if isinstance(k, Agg) and k.v is not None and k.v < len(msgs):
+        fmt_append(I, st, args[1], msgs[k.v])
+        return OK_UNIT
+    raise Unsupported("ParseIntError kind %r" % (k,))
